@@ -2,7 +2,8 @@
 // ElitistSelection on integer populations (exact).  One op per stdin line, one observation line
 // per op (format of lean/Driver/C14.lean).  The flags of the partially selected front are printed exactly for the
 // indicators with an exact model (hv with reference, hv without reference in 2-D, crowd, eps) and as '?' otherwise.  Oracle: exactly mu individuals selected; no selected
-// individual has a worse non-domination rank than an unselected one; ranks satisfy the definition.
+// individual has a worse non-domination rank than an unselected one; ranks satisfy the definition; the members the hypervolume
+// indicator discards from the last front are least contributors (brute-force hypervolume, ties allowed, 2-3 objectives, with/without reference).
 #include <shark/Algorithms/DirectSearch/Individual.h>
 #include <shark/Algorithms/DirectSearch/Operators/Selection/IndicatorBasedSelection.h>
 #include <shark/Algorithms/DirectSearch/Operators/Selection/ElitistSelection.h>
@@ -33,6 +34,177 @@ static bool weakDom(RealVector const& p, RealVector const& q){
 	return true;
 }
 static bool strictDom(RealVector const& p, RealVector const& q){ return weakDom(p,q) && !weakDom(q,p); }
+
+// ---------------------------------------------------------------- NSGA-III: replica of the floating-point association step
+// (copy of NSGA3Indicator::leastContributors up to `pairing` and of computeNormalizer; its result is an INPUT of the model's
+// niche-selection loop and the real indicator's final choice is compared with the model's, so a divergence of the copy shows up
+// as a mismatch)
+static bool g_aux = false;
+static RealVector nsga3Normalizer(std::vector<RealVector> const& points){
+	double epsilon = 0.00001;
+	std::size_t dimensions = points.front().size();
+	RealMatrix cornerPoints(dimensions, dimensions,0.0);
+	for(std::size_t dim = 0; dim != dimensions; ++dim){
+		KeyValuePair<double,std::size_t> best(std::numeric_limits<double>::max(),0);
+		for(std::size_t i = 0; i != points.size(); ++i){
+			auto const& point = points[i];
+			double dist = epsilon * sum(point) + (1-epsilon) * point[dim];
+			best = std::min(best,makeKeyValuePair(dist,i));
+		}
+		noalias(row(cornerPoints,dim)) = points[best.value];
+	}
+	RealMatrix A = trans((cornerPoints|1)) % (cornerPoints|1);
+	RealVector b = trans((cornerPoints|1)) % blas::repeat(-1.0,dimensions);
+	blas::symm_pos_semi_definite_solver<RealMatrix> solver(A);
+	if(solver.rank() == dimensions){
+		solver.solve(b, blas::left());
+		RealVector w = subrange(b,0,dimensions);
+		if(min(w) >= 0) return blas::repeat(1.0,dimensions)/w;
+	}
+	RealVector nadir = points.front();
+	for(auto& point: points) noalias(nadir) = max(nadir,point);
+	for(std::size_t i = 0; i != nadir.size(); ++i) if(!(nadir(i) > 0)) nadir(i) = 1.0;
+	return nadir;
+}
+// (distance, reference index) per point of archive ++ front
+static std::vector<std::pair<double,std::size_t> > nsga3Assoc(std::vector<RealVector> points, std::vector<RealVector> const& Z){
+	RealVector ideal = points.front();
+	for(auto& point: points) noalias(ideal) = min(ideal,point);
+	for(auto& point: points) noalias(point) = point - ideal;
+	RealVector normalizer = nsga3Normalizer(points);
+	for(auto& point: points) noalias(point) = point/ normalizer;
+	std::vector<std::pair<double,std::size_t> > res(points.size(), std::make_pair(std::numeric_limits<double>::max(), std::size_t(0)));
+	for(std::size_t j = 0; j != points.size(); ++j)
+		for(std::size_t i = 0; i != Z.size(); ++i){
+			double dist = norm_sqr(points[j]) - sqr(inner_prod(Z[i],points[j]));
+			if(dist < res[j].first) res[j] = std::make_pair(dist, i);
+		}
+	return res;
+}
+// aux string "nz k_0 z_0 k_1 z_1 ..." (dense order keys of the distances) for the call the selection makes on `pop`
+static std::string nsga3Aux(std::vector<Ind> const& pop, std::size_t mu, std::vector<RealVector> const& Z){
+	// the partially selected front: fronts are dropped from the worst while popSize - |front| >= mu
+	unsigned maxRank = 0; for(auto const& x: pop) maxRank = std::max(maxRank, x.rank());
+	std::size_t popSize = pop.size(); unsigned R = maxRank;
+	for(;; --R){
+		std::size_t fs = 0; for(auto const& x: pop) if(x.rank() == R) ++fs;
+		if(R == 0 || popSize - fs < mu) break;
+		popSize -= fs;
+	}
+	std::vector<RealVector> pts;
+	for(unsigned r = 1; r < R; ++r) for(auto const& x: pop) if(x.rank() == r) pts.push_back(x.penalizedFitness());
+	for(auto const& x: pop) if(x.rank() == R) pts.push_back(x.penalizedFitness());
+	if(pts.empty()) return "";
+	auto as = nsga3Assoc(pts, Z);
+	std::vector<double> u; for(auto const& a: as) u.push_back(a.first);
+	std::sort(u.begin(), u.end()); u.erase(std::unique(u.begin(), u.end()), u.end());
+	std::string s = std::to_string(Z.size());
+	for(auto const& a: as){
+		if(!(a.first < std::numeric_limits<double>::max())) return "nan";      // NaN / no direction closer than DBL_MAX: outside the model
+		s += " " + std::to_string(std::lower_bound(u.begin(), u.end(), a.first) - u.begin()) + " " + std::to_string(a.second);
+	}
+	return s;
+}
+
+// ---------------------------------------------------------------- independent oracle for the hypervolume indicator's choice
+// exact dominated hypervolume of integer points w.r.t. ref by coordinate compression (points that are not strictly below
+// ref in every objective dominate nothing inside the reference box)
+typedef std::vector<double> DPt;
+static double hvBrute(std::vector<DPt> const& pts, DPt const& ref){
+	std::size_t m = ref.size();
+	std::vector<DPt> in;
+	for(auto const& p: pts){ bool ok = true; for(std::size_t d = 0; d != m; ++d) ok = ok && p[d] < ref[d]; if(ok) in.push_back(p); }
+	if(in.empty()) return 0;
+	std::vector<std::vector<double> > ax(m);
+	for(std::size_t d = 0; d != m; ++d){
+		for(auto const& p: in) ax[d].push_back(p[d]);
+		ax[d].push_back(ref[d]);
+		std::sort(ax[d].begin(), ax[d].end()); ax[d].erase(std::unique(ax[d].begin(), ax[d].end()), ax[d].end());
+	}
+	double vol = 0;
+	std::vector<std::size_t> idx(m, 0);
+	for(;;){
+		bool covered = false;
+		for(auto const& p: in){ bool le = true; for(std::size_t d = 0; d != m; ++d) le = le && p[d] <= ax[d][idx[d]]; if(le){ covered = true; break; } }
+		if(covered){ double c = 1; for(std::size_t d = 0; d != m; ++d) c *= ax[d][idx[d] + 1] - ax[d][idx[d]]; vol += c; }
+		std::size_t d = 0;
+		for(; d != m; ++d){ if(++idx[d] + 1 < ax[d].size()) break; idx[d] = 0; }
+		if(d == m) break;
+	}
+	return vol;
+}
+// mode 0: explicit reference `ref`; mode 1: no reference point (implicit reference = component-wise maximum of the current front,
+// points that are extreme are no candidates: 2-D first/last of the lexicographic order, 3-D the first minimiser of each objective)
+static std::vector<bool> candidates(std::vector<DPt> const& f, int mode){
+	std::size_t n = f.size(), m = f[0].size();
+	std::vector<bool> c(n, true);
+	if(mode == 0) return c;
+	if(m == 2){
+		if(n <= 2) return c;                          // the routine returns index 0: nothing to require
+		std::size_t lo = 0, hi = 0;
+		for(std::size_t i = 1; i != n; ++i){ if(f[i] < f[lo]) lo = i; if(f[hi] < f[i]) hi = i; }
+		// only the first and the last element of the sorted order are excluded: of several copies of an extreme point all but
+		// one are interior (and any copy may be the one at the end)
+		std::size_t nlo = 0, nhi = 0;
+		for(std::size_t i = 0; i != n; ++i){ if(f[i] == f[lo]) ++nlo; if(f[i] == f[hi]) ++nhi; }
+		for(std::size_t i = 0; i != n; ++i) if((f[i] == f[lo] && nlo == 1) || (f[i] == f[hi] && nhi == 1)) c[i] = false;
+		bool any = false; for(std::size_t i = 0; i != n; ++i) any = any || c[i];
+		if(!any) c.assign(n, true);
+		return c;
+	}
+	for(std::size_t d = 0; d != m; ++d){ std::size_t a = 0; for(std::size_t i = 1; i != n; ++i) if(f[i][d] < f[a][d]) a = i; c[a] = false; }
+	return c;
+}
+static DPt usedReference(std::vector<DPt> const& f, int mode, DPt const& ref){
+	if(mode == 0) return ref;
+	DPt r = f[0];
+	for(auto const& p: f) for(std::size_t d = 0; d != r.size(); ++d) r[d] = std::max(r[d], p[d]);
+	return r;
+}
+// is there an order in which the members `drop` (positions in f) can be removed one at a time, each being a candidate of
+// minimal contribution hv(front) - hv(front without it) of the front that is left?
+static bool removalOrderExists(std::vector<DPt> f, std::vector<std::size_t> drop, int mode, DPt const& ref, int& budget){
+	if(drop.empty()) return true;
+	if(--budget < 0) return true;                       // search budget exhausted: no verdict
+	std::vector<bool> cand = candidates(f, mode);
+	bool anyCand = false; for(bool b: cand) anyCand = anyCand || b;
+	if(!anyCand) return true;                           // reference-free 3-D with only extreme points: result unspecified (C13 remark)
+	DPt r = usedReference(f, mode, ref);
+	double total = hvBrute(f, r);
+	std::vector<double> con(f.size());
+	double best = 1e300;
+	for(std::size_t i = 0; i != f.size(); ++i){
+		std::vector<DPt> g(f); g.erase(g.begin() + i);
+		con[i] = total - hvBrute(g, r);
+		if(cand[i]) best = std::min(best, con[i]);
+	}
+	for(std::size_t k = 0; k != drop.size(); ++k){
+		std::size_t i = drop[k];
+		if(!cand[i] || con[i] != best) continue;
+		std::vector<DPt> g(f); g.erase(g.begin() + i);
+		std::vector<std::size_t> rest;
+		for(std::size_t j = 0; j != drop.size(); ++j) if(j != k) rest.push_back(drop[j] > i ? drop[j] - 1 : drop[j]);
+		if(removalOrderExists(g, rest, mode, ref, budget)) return true;
+	}
+	return false;
+}
+// the members of the partially selected front that the hypervolume indicator discarded must be removable in some order as
+// least contributors (ties allowed)
+static void checkHvChoice(std::vector<Ind> const& pop, int mode, RealVector const& ref, std::string& orc){
+	unsigned r = 0;
+	for(auto const& x: pop) if(x.selected()) r = std::max(r, x.rank());
+	std::vector<DPt> f; std::vector<std::size_t> drop;
+	for(auto const& x: pop) if(x.rank() == r){
+		if(!x.selected()) drop.push_back(f.size());
+		f.push_back(DPt(x.penalizedFitness().begin(), x.penalizedFitness().end()));
+	}
+	if(drop.empty() || f.empty()) return;
+	int budget = 4000;
+	if(!removalOrderExists(f, drop, mode, DPt(ref.begin(), ref.end()), budget)){
+		orc += " !oracle hv-choice-not-least-contributor front=" + std::to_string(f.size()) + " dropped=";
+		for(std::size_t i = 0; i != drop.size(); ++i) orc += (i ? "," : "") + std::to_string(drop[i]);
+	}
+}
 
 template<class Selection>
 static void runSelection(Selection& sel, std::vector<Ind>& pop, std::size_t mu, std::ostream& os, std::string& orc, bool exact = false){
@@ -65,7 +237,8 @@ static void runSelection(Selection& sel, std::vector<Ind>& pop, std::size_t mu, 
 	}
 }
 
-int main(){
+int main(int argc, char** argv){
+	g_aux = argc > 1 && std::string(argv[1]) == "--aux";
 	std::string line;
 	std::vector<long long> a;
 	random::rng_type rng(42);
@@ -76,7 +249,8 @@ int main(){
 		try{
 		// `sel hvr mu m n r(m) pts`: hypervolume indicator with the explicit reference point r (points may lie beyond it)
 		bool hvr = t[0] == "sel" && t.size() >= 5 && t[1] == "hvr";
-		if(t[0] == "sel" && t.size() >= 5 && parseInts(t, 2, a) && a.size() >= 3 && a.size() == 3 + (std::size_t)(a[1]*a[2]) + (hvr ? (std::size_t)a[1] : 0)){
+		std::vector<std::string> tmain(t.begin(), std::find(t.begin(), t.end(), "aux"));
+		if(t[0] == "sel" && t.size() >= 5 && parseInts(tmain, 2, a) && a.size() >= 3 && a.size() == 3 + (std::size_t)(a[1]*a[2]) + (hvr ? (std::size_t)a[1] : 0)){
 			std::string ind = t[1];
 			std::size_t mu = a[0], m = a[1], n = a[2];
 			RealVector given(m, 0.0);
@@ -92,12 +266,25 @@ int main(){
 				pop[i].selected() = ((n + mu) % 3 == 0) ? false : (((n + mu) % 3 == 1) ? (i % 2 == 0) : true);
 				pop[i].rank() = 7;
 			}
-			if(hvr){ IndicatorBasedSelection<HypervolumeIndicator> s; s.indicator().setReference(given); runSelection(s, pop, mu, os, orc, true); }
-			else if(ind == "hv"){ IndicatorBasedSelection<HypervolumeIndicator> s; s.indicator().setReference(ref); runSelection(s, pop, mu, os, orc, true); }
-			else if(ind == "hvnoref"){ IndicatorBasedSelection<HypervolumeIndicator> s; runSelection(s, pop, mu, os, orc, m == 2); }
+			if(hvr){ IndicatorBasedSelection<HypervolumeIndicator> s; s.indicator().setReference(given); runSelection(s, pop, mu, os, orc, true); checkHvChoice(pop, 0, given, orc); }
+			else if(ind == "hv"){ IndicatorBasedSelection<HypervolumeIndicator> s; s.indicator().setReference(ref); runSelection(s, pop, mu, os, orc, true); checkHvChoice(pop, 0, ref, orc); }
+			else if(ind == "hvnoref"){ IndicatorBasedSelection<HypervolumeIndicator> s; runSelection(s, pop, mu, os, orc, m == 2); checkHvChoice(pop, 1, ref, orc); }
 			else if(ind == "crowd"){ IndicatorBasedSelection<CrowdingDistance> s; runSelection(s, pop, mu, os, orc, true); }
 			else if(ind == "eps"){ IndicatorBasedSelection<AdditiveEpsilonIndicator> s; runSelection(s, pop, mu, os, orc, true); }
-			else if(ind == "nsga3"){ IndicatorBasedSelection<NSGA3Indicator> s; s.indicator().init(m, std::max<std::size_t>(mu, m), rng); runSelection(s, pop, mu, os, orc); }
+			else if(ind == "nsga3"){
+				// reference directions: the unit vectors on the lattice RealCodedNSGAIII would use, set explicitly
+				RealMatrix refs = unitVectorsOnLattice(m, computeOptimalLatticeTicks(m, std::max<std::size_t>(mu, m)));
+				std::vector<RealVector> Z; for(std::size_t i = 0; i != refs.size1(); ++i) Z.push_back(row(refs, i));
+				IndicatorBasedSelection<NSGA3Indicator> s; s.indicator().setReferencePoints(Z);
+				for(auto& z: Z) z /= norm_2(z);                         // what setReferencePoints does
+				std::size_t auxAt = std::find(t.begin(), t.end(), "aux") - t.begin();
+				std::string given; for(std::size_t i = auxAt + 1; i < t.size(); ++i) given += (given.empty() ? "" : " ") + t[i];
+				bool exact = auxAt != t.size() && given != "nan" && !given.empty();
+				runSelection(s, pop, mu, os, orc, exact);
+				std::string aux = nsga3Aux(pop, mu, Z);                 // ranks are those of the real selection (C13)
+				if(g_aux){ std::cout << aux << "\n"; continue; }
+				if(auxAt != t.size() && aux != given) orc += " !oracle aux-mismatch";
+			}
 			else { std::cout << "bad-op\n"; continue; }
 		}else if(t[0] == "elit" && parseInts(t, 1, a) && a.size() >= 2 && a.size() == 2 + (std::size_t)a[1]){
 			typedef Individual<RealVector, double> SInd;
@@ -118,6 +305,7 @@ int main(){
 			os.str(""); os << "exception";
 			orc += std::string(" !oracle exception ") + e.what();
 		}
+		if(g_aux){ std::cout << "\n"; continue; }
 		std::cout << os.str() << orc << "\n";
 	}
 	return 0;
